@@ -60,14 +60,14 @@ CHECKS = {
     ),
     "C09": dict(
         engine="apiwalk",
-        technique="complete product enumeration on the production gin engine: every route of Engine.Routes() (read at run time) x 14 credential classes (incl. a token used once and then revoked, SQL-wildcard and case variants of a valid token) x use_auth x debug_profiling x metrics; rejected requests are observed through a statement-recording SQL driver (only the token lookup may run) and table digests; routes outside /api/v1 are matched against the allowed set",
-        text="The space is finite and enumerated completely in both tiers (17 API routes x 14 classes x 8 configurations today; new routes are picked up from the routing table). Tokens in the classes come from a real create/revoke history on the SQL token repository; the admin token alternates between the default and one with the length and alphabet of issued tokens.",
+        technique="complete product enumeration on the production gin engine: every route of Engine.Routes() (read at run time) x 16 credential classes (incl. prefixes/suffixes of valid credentials, a token used once and then revoked, SQL-wildcard and case variants of a valid token) x use_auth x debug_profiling x metrics; rejected requests are observed through a statement-recording SQL driver (only the token lookup may run) and table digests; routes outside /api/v1 are matched against the allowed set",
+        text="The space is finite and enumerated completely in both tiers (17 API routes x 16 classes x 8 configurations today; new routes are picked up from the routing table). Tokens in the classes come from a real create/revoke history on the SQL token repository; the admin token alternates between the default and one with the length and alphabet of issued tokens.",
         design="§3 C09",
     ),
     "C10": dict(
         engine="apiwalk",
         technique="exhaustive enumeration of operation sequences {create, revoke(each issued|unknown|admin|already revoked), restart} up to depth 5 (quick) / 7 (thorough) with <=3 issued tokens on the SQL token repository; after every step every known token, an unknown one and the admin token are probed on two HTTP routes and on the websocket connect handshake (real centrifuge node, real OnConnecting handler, in-memory transport), oracle = set model",
-        text="Exhaustive within the bound. Distinctness of generated tokens is only checked on the tokens observed. Histories alternate between two admin-token shapes (default; length and alphabet of issued tokens). The websocket probe enters at the centrifuge connect command (the real handler), not at the HTTP upgrade.",
+        text="Exhaustive within the bound. Distinctness of generated tokens is only checked on the tokens observed. Histories rotate through three admin-token shapes (default; length and alphabet of issued tokens; 45 characters); prefixes and suffixed forms of valid credentials are probed as unknown. The websocket probe enters at the centrifuge connect command (the real handler), not at the HTTP upgrade.",
         design="§3 C10",
     ),
     "C12": dict(
@@ -78,7 +78,7 @@ CHECKS = {
     ),
     "C16": dict(
         engine="apiwalk",
-        technique="complete product enumeration per route of path/query/body alphabets (8 hash forms incl. stale/orphan/genesis/unknown/malformed/10 kB, 11 integer forms, 26 body forms incl. truncated, non-JSON, wrong content type, 5000-element lists) on three store shapes x {auth off, admin token, issued non-admin token}; oracle: status < 500, exactly one JSON document, 4xx = object with code and message, headers table digest unchanged, engine still answers",
+        technique="complete product enumeration per route of path/query/body alphabets (8 hash forms incl. stale/orphan/genesis/unknown/malformed/10 kB, 11 integer forms, 26 body forms incl. truncated, non-JSON, wrong content type, 5000-element lists) on three store shapes x {auth off, admin token, issued non-admin token}, plus short malformed Authorization headers; oracle: status < 500, exactly one JSON document, 4xx = object with code and message, headers table digest unchanged, engine still answers",
         text="The grammar is finite and enumerated completely (4185 requests per quick run; the thorough tier adds all 192 blueprints of 3 headers x 2 arrival orders and every single-character deletion/substitution of one well-formed body per POST route, 374 000 requests). Requests that match no registered route are answered by the framework (plain 404 / redirect) and are counted but not judged. Byte-level HTTP malformation is net/http's.",
         design="§3 C16",
     ),
